@@ -124,7 +124,7 @@ def word_leg(ctx, binp, n, legname):
     ctx.extra["inside_model_fragment_words"] = total
 
 
-STMT_PRELUDE = """From Verif Require Import Base.Str Syntax.Word Syntax.MiniAst Syntax.MiniPrinter Syntax.MiniParser Syntax.MiniPos Syntax.MiniPrinterML.
+STMT_PRELUDE = """From Verif Require Import Base.Str Syntax.Word Syntax.MiniAst Syntax.MiniPrinter Syntax.MiniParser Syntax.MiniPos Syntax.MiniPrinterML Syntax.MiniRedir.
 Open Scope N_scope.
 Ltac leaf n i := first [reflexivity | exact I | idtac "MISMATCH" n i].
 Ltac conj n i := lazymatch goal with |- _ /\\ _ => split; [leaf n i | let m := eval compute in (S n) in conj m i] | _ => leaf n i end.
@@ -141,6 +141,9 @@ STMT_WHAT = {
     ("default", 4): "canonical layout: the lines the real Parser assigns to the source differ from canon_file",
     ("default", 5): "canonical layout: the lines the real Parser assigns to the PRINTED text differ from canon_file",
     ("default", 6): "canonical layout: ml_print_file (canonical positions) differs from the real Printer bytes",
+    ("xcall", 1): "level S+ (assignments, redirections): model x_print_file bytes differ from the real Printer",
+    ("xcall", 2): "level S+: model parse_xfile of the printed text differs from the real Parser",
+    ("xcall", 3): "level S+: model parse_xfile of the source differs from the real Parser",
 }
 
 
@@ -172,7 +175,7 @@ def stmt_leg(ctx, n):
             if ctx.pid == "C01":
                 ctx.fail("stmt_roundtrip", dict(inp, out_text=bytes.fromhex(r["out"]).decode("utf-8", "replace")), None,
                          "real Parse(Print(tree)) differs from tree on a fragment program")
-        elif r["mode"] == "default" and not r.get("idem") and ctx.pid == "C02":
+        elif r["mode"] in ("default", "xcall") and not r.get("idem") and ctx.pid == "C02":
             ctx.fail("stmt_idempotent", dict(inp, out_text=bytes.fromhex(r["out"]).decode("utf-8", "replace")), None,
                      "real Print(Parse(Print(tree))) differs from Print(tree) on a fragment program (default mode)")
         else:
@@ -186,7 +189,10 @@ def stmt_leg(ctx, n):
         lines = [STMT_PRELUDE]
         for i, r in enumerate(part):
             # reparse == tree for every case kept in `good`
-            if r["mode"] == "single":
+            if r["mode"] == "xcall":
+                lines.append("Goal let x := %s in let o := %s in x_print_file %s x = o /\\ parse_xfile o = Some x /\\ parse_xfile %s = Some x. chk %d%%nat. Abort."
+                             % (r["tree"], coq_bytes(r["out"]), "true" if r["bnl"] else "false", coq_bytes(r["src"]), i))
+            elif r["mode"] == "single":
                 lines.append("Goal let t := %s in let o := %s in sl_print_file t = o /\\ parse_file o = Some t /\\ parse_file %s = Some t. chk %d%%nat. Abort."
                              % (r["tree"], coq_bytes(r["out"]), coq_bytes(r["src"]), i))
             else:
@@ -212,10 +218,12 @@ def stmt_leg(ctx, n):
             mism.append({"what": STMT_WHAT.get((r["mode"], int(tag)), tag), "src_text": bytes.fromhex(r["src"]).decode("utf-8", "replace"),
                          "opts": r["opts"], "go_out": bytes.fromhex(r["out"]).decode("utf-8", "replace")})
     nsingle = sum(1 for r in good if r["mode"] == "single")
+    nx = sum(1 for r in good if r["mode"] == "xcall")
     ncanon = sum(1 for r in good if r["mode"] == "default" and r["canon"])
-    ctx.leg(legname, total, mism, note="%d SingleLine + %d default-mode fragment programs (%d of them in canonical layout: lines vs canon_file); "
+    ctx.leg(legname, total, mism, note="%d SingleLine + %d default-mode fragment programs (%d of them in canonical layout: lines vs canon_file) "
+            "+ %d simple commands with assignments/redirections (level S+, SpaceRedirects on/off, SingleLine/default); "
             "pinned separator cases + generated, random layout; outside/err: %s" % (
-                nsingle, total - nsingle, ncanon, json.dumps({k: v for k, v in summ.items() if not k.startswith("cases")})))
+                nsingle, total - nsingle - nx, ncanon, nx, json.dumps({k: v for k, v in summ.items() if not k.startswith("cases")})))
     ctx.extra["inside_model_fragment_stmts"] = total
     for r in good:
         ctx.nontrivial.add(("stmts", r["id"]))
